@@ -1776,6 +1776,30 @@ pub (crate) fn bid128_ext_fma(
 
     // continue with x = f, y = f, z = f
 
+    // if the product alone is at least 10 * 10^(emax+1) the sum overflows whatever z is
+    // (|z| < 10^(emax+1)), with the sign of the product
+    if q4 - 1 + e4 > EXP_MAX_UNBIASED + P34 {
+        *pfpsf |= StatusFlags::BID_INEXACT_EXCEPTION | StatusFlags::BID_OVERFLOW_EXCEPTION;
+        if rnd_mode == RoundingMode::NearestEven || rnd_mode == RoundingMode::NearestAway
+        || (p_sign == 0 && rnd_mode == RoundingMode::Upward)
+        || (p_sign != 0 && rnd_mode == RoundingMode::Downward) {
+            res.w[1] = p_sign | 0x7800000000000000u64; // +/-inf
+            res.w[0] = 0x0000000000000000u64;
+        } else {
+            res.w[1] = p_sign | 0x5fffed09bead87c0u64; // +/-MAXFP
+            res.w[0] = 0x378d8e63ffffffffu64;
+        }
+        *ptr_is_midpoint_lt_even    = false;
+        *ptr_is_midpoint_gt_even    = false;
+        *ptr_is_inexact_lt_midpoint = true;
+        *ptr_is_inexact_gt_midpoint = false;
+
+        #[cfg(target_endian = "big")]
+        BID_SWAP128(&mut res);
+
+        return res;
+    }
+
     delta = q3 + e3 - q4 - e4;
 
 // TODO: Try to ge around C goto
